@@ -1125,7 +1125,7 @@ func genEvalCases(tier string, emit func(op string, fields ...string)) {
 		emit("EVAL", hexs(genJoinChain()), strconv.Itoa(seed*7))
 	}
 	// exhaustive short operator sequences with fixed small arguments (C02)
-	opsFixed := []string{"where a > 0", "project a, b, k", "project k, a", "extend n9 = a + 1", "summarize n8 = count() by a", "sort by a asc", "sort by b",
+	opsFixed := []string{"where a > 0", "where b > 0", "project a, b, k", "project k, a", "extend n9 = a + 1", "summarize n8 = count() by a", "sort by a asc", "sort by b",
 		"take 2", "top 2 by b", "count", "as x1", "render t"}
 	maxLen := 3
 	if tier == "thorough" {
